@@ -850,6 +850,12 @@ pub fn vec_op<'b, P: Pair>(ctx: &mut Ctx, bump: &'b Bump, v: &mut VSlot<'b, P::A
     v.check_promise(ctx, VOP_NAMES.get(code as usize).copied().unwrap_or("an operation"));
     // like std's, the vector never gives capacity back on its own: only shrink_to_fit lowers it (C18: room the vector
     // has is usable later without moving)
+    // amortised growth: whenever an operation other than an exact reservation has to grow a non-empty buffer, the
+    // capacity at least doubles (push, insert, extend*, append, resize, splice, reserve all go through the same path)
+    let exact_reservation = code == 17 && (a % 4 == 1 || a % 4 == 3);
+    if !exact_reservation && code != 28 && std::mem::size_of::<P::A>() > 0 && cap_before > 0 && v.s.capacity() > cap_before && v.s.capacity() < 2 * cap_before {
+        ctx.v("C18", format!("{} grew the capacity from {cap_before} to {} (less than double)", VOP_NAMES.get(code as usize).copied().unwrap_or("an operation"), v.s.capacity()));
+    }
     if code != 28 && std::mem::size_of::<P::A>() > 0 && v.s.capacity() < cap_before {
         ctx.v("C18", format!("{} lowered the capacity from {cap_before} to {} without shrink_to_fit", VOP_NAMES.get(code as usize).copied().unwrap_or("an operation"), v.s.capacity()));
     }
